@@ -99,7 +99,7 @@ def run(ctx):
     if err:
         ctx.violation('translator of the yyless() macros gave up: ' + err, {'error': err}, no_input=True)
     q1, q2, q3 = {'quick': (64, 48, 32), 'thorough': (600, 400, 200)}[ctx.tier]
-    plan = [('ops', q1, 8), ('unput', q2, 6), ('arraymore', q3, 6), ('eof', q3, 6), ('inputbol', q3, 6)]
+    plan = [('ops', q1, 8), ('unput', q2, 6), ('arraymore', q3, 6), ('eof', q3, 6), ('inputbol', q3, 6), ('memmore', q3, 6)]
     return rtprop.run(ctx, THEOREMS + UNPUT_THEOREMS + YYLESS_THEOREMS, plan, 'proof',
                       'yymore/yyless/yyunput/yyinput scripts per action execution, %array and %pointer, reentrant and not, small buffers; yyunput_r() itself is translated from a scanner flex generates in this run (Gen/Unput.lean: the character buffer as an array, every char* an offset, the shift loop a while loop) and proved for every buffer size, fill level, scan position and character: the push-back overflow error exactly when there is no room even after shifting, otherwise the unread text is the character followed by the unread text before, the end-of-buffer marks follow the data, and after a shift the buffer\'s own character count equals the scanner\'s (C08Unput.unput_spec); the two definitions of the yyless(n) macro (the one actions use and the one for section-3 code, with YY_LESS_LINENO as generated for %option yylineno) are translated the same way and proved, for every token, n and buffer content, to leave the same state: first n characters kept, scan position after them, hold character saved, the old end restored, yylineno lowered by the newlines given back (C08YYLess.less_action_spec, less_section3_spec, both_definitions_agree)' + '. Kernel-checked theorems about the abstract scanner (listed under obligations) + differential '
                       'correspondence of the real generated scanner (ASan/UBSan build) with that model on generated cases.',
